@@ -36,6 +36,11 @@ def s_detail(draw):
     ct = CT_SPECS[cti]
     is_utf8 = ct[0] == "text" and ct[2].get("charset") == "utf8"
     chunks = draw(st.lists(TEXT_CHUNKS if is_utf8 else st.one_of(TEXT_CHUNKS, BIN_CHUNKS), max_size=4))
+    data = b"".join(chunks)
+    if len(data) >= 2 and draw(st.integers(0, 2)) == 0:
+        # the same bytes cut at arbitrary byte positions (a chunk boundary may fall inside a character)
+        cuts = sorted(draw(st.sets(st.integers(1, len(data) - 1), min_size=1, max_size=3)))
+        chunks = [data[a:b] for a, b in zip([0] + cuts, cuts + [len(data)])]
     return {"ct": cti, "chunks": chunks}
 
 
